@@ -53,4 +53,10 @@ def hitOk [Num α] (mode : Mode) (ys ints : List α) (x : α) (w : List Nat) : H
     | .closest => isClosest ys x w j
     | .largest => isLargest ints w j
 
+/-- what mode `all` must report for a fragment whose brute-force window is `w` -/
+def hitOfWindow (w : List Nat) : Hit := if w = [] then .none else .many w
+
+/-- the distinct matched peaks: the peaks of the spectrum `ps` that occur among the matches `ms` (each once) -/
+def matchedPeaks (ps ms : List (Rat × Rat)) : List (Rat × Rat) := ps.filter (fun p => decide (p ∈ ms))
+
 end Score
